@@ -30,11 +30,13 @@ structure Link where
   attrs : Map
   deriving DecidableEq, Repr
 
-/-- instrumentation scope the tracer was obtained with: name, version, schema url -/
+/-- instrumentation scope the tracer was obtained with: name, version, schema url and (ABI v2: `GetTracer(name, version,
+    schema_url, attributes)`) the scope attributes, an `AttributeMap` built from the iterable; `none` = requested without -/
 structure Scope where
   name : Bytes
   version : Bytes
   schema : Bytes
+  attrs : Option Map := none
   deriving DecidableEq, Repr
 
 /-- `SpanData`, with its default member initialisers -/
